@@ -561,7 +561,7 @@ class World(object):
             return None
         if outcome is None:
             before = ambient_snapshot()
-            outcome = sched._outcome(lambda: api_call(name, arg.value))
+            outcome = sched.guarded(lambda: api_call(name, arg.value))
             after = ambient_snapshot()
             if before != after:
                 changed = [a[0] for a, b in zip(before, after) if a != b]
@@ -678,6 +678,17 @@ class World(object):
         if not conts:
             return None
         wipe = op.get("wipe", False)
+        if op.get("dropkey") is not None:
+            # delete one OPTIONAL-looking key somewhere (the document stays nearly valid: the library gets as far
+            # as the place that misses it)
+            names = ("line", "additional_offsets", "args", "docstring", "type", "relative", "_index_override", "line_number", "arg", "freevars")
+            hits = [c for c in conts if isinstance(c, dict) and any(k in c for k in names)]
+            if hits:
+                c = hits[op["dropkey"] % len(hits)]
+                ks = [k for k in names if k in c]
+                del c[ks[(op["dropkey"] // 7) % len(ks)]]
+                self.count("fault_scribble_dropkey")
+            op = dict(op, edits=[])
         # documents the HARNESS made share containers with this one (alias op) change with it
         group = self.alias_group(s.id)
         if wipe:
